@@ -73,6 +73,26 @@ def model_check_txn(c, tier, which="MC_Txn.cfg"):
     return r
 
 
+def model_check_recovery(c, tier):
+    """Recovery.tla: cache / log tail / durable pages / page zero / log, checkpoint and restart recovery split into the steps between
+    which the process can die; Durable (C01) and ExactState (C01 + C02, convergence of repeated recovery for C08) for all
+    interleavings of 2 transactions, 2 keys, 2 crashes, 1 checkpoint.  The repaired defects and two design mutations are
+    separate constants: each must be refuted."""
+    r = run_tlc("Recovery", os.path.join(vlib.SPEC, "MC_Recovery.cfg" if tier == "quick" else "MC_Recovery_thorough.cfg"), workers=8, timeout=3000, xmx="12g")
+    if not r.ok:
+        raise ToolError("Recovery.tla (ideal design) violates %s" % r.violated)
+    c.add("states", r.distinct)
+    c.add("transitions", r.generated)
+    refuted = []
+    for dev, inv in (("AbortLoggedAsCommit", "ExactState"), ("TruncateBeforeRecoveredPagesDurable", "ExactState"),
+                     ("MUT_AckWithoutForce", "Durable"), ("MUT_CheckpointTruncatesFirst", "Durable")):
+        d = run_tlc("Recovery", os.path.join(vlib.SPEC, "MC_Recovery_dev_%s.cfg" % dev), workers=4)
+        if d.violated != inv:
+            raise ToolError("Recovery.tla with %s: expected a counterexample for %s, got %s" % (dev, inv, d.violated))
+        refuted.append(dev)
+    c.cov["recovery_design_mutations_refuted"] = refuted
+
+
 def replay_trace(prop, path, seed):
     c = Check(prop, "quick", seed, "model_checking")
     wd = vlib.workdir(prop.lower() + "-replay")
